@@ -174,6 +174,9 @@ func vUFInjective(name string) {}
 func vUF64(name string, args ...uint64) uint64 {
 	panic("VERIF-NO-NATIVE: uninterpreted function " + name)
 }
+func vUF32(name string, args ...*big.Int) [32]byte {
+	panic("VERIF-NO-NATIVE: uninterpreted function " + name)
+}
 func vUFBig(name string, args ...*big.Int) *big.Int {
 	panic("VERIF-NO-NATIVE: uninterpreted function " + name)
 }
